@@ -12,6 +12,7 @@ open CifModel CifModel.Spec.ValueSpec
 theorem codes_link :
     (a!"CIF_OK", OK) ∈ Gen.ErrCodes.codes ∧ (a!"CIF_ERROR", ERROR) ∈ Gen.ErrCodes.codes
     ∧ (a!"CIF_ARGUMENT_ERROR", ARGUMENT_ERROR) ∈ Gen.ErrCodes.codes
+    ∧ (a!"CIF_DUP_ITEMNAME", DUP_ITEMNAME) ∈ Gen.ErrCodes.codes
     ∧ (a!"CIF_INVALID_ITEMNAME", INVALID_ITEMNAME) ∈ Gen.ErrCodes.codes
     ∧ (a!"CIF_NOSUCH_ITEM", NOSUCH_ITEM) ∈ Gen.ErrCodes.codes
     ∧ (a!"CIF_INVALID_NUMBER", INVALID_NUMBER) ∈ Gen.ErrCodes.codes
@@ -352,9 +353,9 @@ theorem resolve_update (p : List Step) (root x r : V) (h : update root p x = som
 
 /-- the repaired clone-onto: the target ends up equal to the source as it was before the call, whatever their relative
     position; cloning onto itself changes nothing -/
-theorem cloneOntoRepaired_spec (root : V) (sp dp : List Step) (s r : V) (hs : resolve root sp = some s)
-    (h : cloneOntoRepaired root sp dp = some r) : (sp = dp → r = root) ∧ (sp ≠ dp → resolve r dp = some s) := by
-  unfold cloneOntoRepaired at h
+theorem cloneOnto_spec (root : V) (sp dp : List Step) (s r : V) (hs : resolve root sp = some s)
+    (h : cloneOnto root sp dp = some r) : (sp = dp → r = root) ∧ (sp ≠ dp → resolve r dp = some s) := by
+  unfold cloneOnto at h
   constructor
   · intro he; subst he; simp only [if_true, hs] at h; cases h; rfl
   · intro hne; simp only [hne, if_false, hs] at h; exact resolve_update dp root s r h
